@@ -218,6 +218,10 @@ class HTTP2Connection(ConnectionInterface):
                 # it as a RemoteProtocolError.
                 if self._connection_terminated:  # pragma: nocover
                     raise RemoteProtocolError(self._connection_terminated)
+                # Likewise once the server has sent something that h2 could
+                # not accept: h2 then refuses whatever a stream tries to send.
+                if isinstance(self._read_exception, RemoteProtocolError):
+                    raise RemoteProtocolError(self._read_exception)
                 # If h2 raises a protocol error in some other state then we
                 # must somehow have made a protocol violation.
                 raise LocalProtocolError(exc)  # pragma: nocover
@@ -531,9 +535,16 @@ class HTTP2Connection(ConnectionInterface):
             raise exc
 
         # Anything that h2 objects to in the data we have been sent is the
-        # remote end's doing, whichever request happens to be reading.
-        with map_exceptions({h2.exceptions.ProtocolError: RemoteProtocolError}):
-            events: list[h2.events.Event] = self._h2_state.receive_data(data)
+        # remote end's doing, whichever request happens to be reading. It
+        # also ends the connection for every other stream, so it is kept
+        # like a network error is.
+        try:
+            with map_exceptions({h2.exceptions.ProtocolError: RemoteProtocolError}):
+                events: list[h2.events.Event] = self._h2_state.receive_data(data)
+        except RemoteProtocolError as exc:
+            self._read_exception = exc
+            self._connection_error = True
+            raise exc
 
         return events
 
